@@ -11,7 +11,9 @@ import numpy as np
 from harness import common as C
 from harness import c01 as H1
 
-RULE = ('FFT cases: every shape in {1..9}^2 (all parity pairs, square and not) plus a few up to 24x17, Q in {1,2,3,1.5,2.37,1.2}, '
+RULE = ('Every case evaluates the property predicate on the real code; the Lean model comparison runs on all cases in the thorough / '
+        'widened tiers and on a sample in quick (the fixed near-symmetric block always; 60-70% of small, 25-30% of larger random cases).  '
+        'FFT cases: every shape in {1..9}^2 (all parity pairs, square and not) plus a few up to 24x17, Q in {1,2,3,1.5,2.37,1.2}, '
         'complex (70%) / real input, float64 (85%) / float32 configuration: energy of focus/unfocus/pad2d, unfocus(focus)=id, '
         'focus(unfocus)=id, unfocus(focus(f,Q),1)=pad2d(f,Q) and its dual, focus(f,Q)=focus(pad2d(f,Q),1), Wavefront.focus (given and DEFAULT Q) / unfocus incl. space and dx '
         'round trip; band-complete cases: (m,Qy) and (n,Qx) drawn from all pairs with m*Q integer, '
